@@ -979,7 +979,7 @@ func (s *Sim) deliverResp(c *Conn, h *half, f *frame, now time.Time) {
 	}
 	data := f.data
 	rewritten := false
-	if r := s.matchRules(c, ri.key, "kill_resp", "err_after", "throttle", "delay_resp", "stall_resp"); r != nil && !f.fab {
+	if r := s.matchRules(c, ri.key, "kill_resp", "err_after", "throttle", "delay_resp", "delay_resp_move", "stall_resp"); r != nil && !f.fab {
 		switch r.Kind {
 		case "kill_resp":
 			s.Count("fault.kill_resp", 1)
@@ -1004,9 +1004,26 @@ func (s *Sim) deliverResp(c *Conn, h *half, f *frame, now time.Time) {
 					r.seen--
 				}
 			}
-		case "delay_resp":
+		case "delay_resp", "delay_resp_move":
 			s.Count("fault.delay", 1)
-			s.Logf("FAULT delay_resp %s key=%d corr=%d dur=%dms", c.Name, ri.key, corr, r.DurMs)
+			s.Logf("FAULT %s %s key=%d corr=%d dur=%dms", r.Kind, c.Name, ri.key, corr, r.DurMs)
+			if r.Kind == "delay_resp_move" && s.NBroker > 1 {
+				// while the response is on its way, every partition of the
+				// first topic this broker leads moves to the next broker
+				from, to := c.Broker, (c.Broker+1)%int32(s.NBroker)
+				np := int32(s.P.Knob("nparts", 1))
+				s.Go(func() {
+					for q := int32(0); q < np; q++ {
+						if s.Cluster.LeaderFor(topicName(0), q) == from {
+							if err := s.Cluster.MoveTopicPartition(topicName(0), q, to); err == nil {
+								s.Count("env.move", 1)
+								s.Probe("move_under_delayed_response")
+								s.Logf("ENV move %s/%d %d->%d (response in flight)", topicName(0), q, from, to)
+							}
+						}
+					}
+				})
+			}
 			h.mu.Lock()
 			f.at = now.Add(time.Duration(r.DurMs) * time.Millisecond)
 			if h.lastAt.Before(f.at) {
